@@ -257,6 +257,12 @@ def directed_import_workspaces():
     # class 1 where the two classes are KNOWN to differ (see the module docstring): a no-op rename on alpha's Node, beta renames its Node
     mk(5, {'alpha': [('Node', '=Node')], 'beta': [('Node', 'TwinNode')]},
        [(['use alpha::Node;'], ['Node']), (['use beta::Node;'], ['Node', 'Vec<Node>'])], [('alpha', 'Node'), ('beta', 'Node')])
+    # in NO class: one name generated by two crates WITHOUT any rename, imported explicitly from each of them in different files of the
+    # importing crate: both import lines are written, whatever order the files arrive in (seeded C06_g: when the files of a crate are
+    # merged, a name that is already imported keeps its import and the later one is dropped - the first file to arrive decides)
+    for lang_ix in (0, 1):
+        mk(lang_ix, {'alpha': [('Settings', 'Settings')], 'beta': [('Settings', 'Settings')]},
+           [(['use alpha::Settings;'], ['Settings']), (['use beta::Settings;'], ['Vec<Settings>'])], [('alpha', 'Settings'), ('beta', 'Settings')])
     # class 2: the crate named by the use is unknown (a re-export), two crates generate the name
     mk(0, {'alpha': [('Leaf', 'Leaf')], 'beta': [('Item', 'Item')], 'gamma': [('Item', 'Item')]},
        [(['use zz::Item;'], ['Item']), (['use alpha::Leaf;'], ['Leaf'])], [('zz', 'Item'), ('alpha', 'Leaf')])
